@@ -106,10 +106,34 @@ class Pool:
         shutil.rmtree(self.base, ignore_errors=True)
 
 
+def snapshot_binaries(bindir):
+    """This check starts thousands of worker processes over many minutes while other checks may rebuild the shared
+    build tree (a relinked libvotca_tools.so is 'too short' for a moment).  Work on a private copy of the driver and
+    the library, taken under the build lock.  (The driver has a RUNPATH, so LD_LIBRARY_PATH takes precedence.)"""
+    import fcntl
+    import glob
+    snap = tempfile.mkdtemp(prefix="c10-bin-", dir=vlib.SCRATCH)
+    lockf = open(os.path.join(vlib.ROOT, "build.lock"), "a")
+    fcntl.flock(lockf, fcntl.LOCK_EX)
+    try:
+        shutil.copy2(os.path.join(bindir, "drv_jobfile"), snap)
+        for lib in glob.glob(os.path.join(os.path.dirname(bindir), "lib", "libvotca_tools.so*")):
+            shutil.copy2(lib, snap)       # follows symlinks: every name becomes a regular file
+    finally:
+        fcntl.flock(lockf, fcntl.LOCK_UN)
+        lockf.close()
+    os.environ["LD_LIBRARY_PATH"] = snap + (":" + os.environ["LD_LIBRARY_PATH"] if os.environ.get("LD_LIBRARY_PATH") else "")
+    r = subprocess.run([os.path.join(snap, "drv_jobfile"), "load", "/nonexistent"], stdout=subprocess.PIPE, stderr=subprocess.PIPE, text=True)
+    if r.returncode != 0 or '"ok":false' not in r.stdout:
+        raise vlib.InfraError("snapshot of drv_jobfile does not run: %s %s" % (r.stdout[-200:], r.stderr[-300:]))
+    return snap
+
+
 def run(ctx):
     t00 = time.time()
     bindir = vlib.ensure_build(["drv_jobfile"])
-    exe = bindir + "/drv_jobfile"
+    snap = snapshot_binaries(bindir)
+    exe = snap + "/drv_jobfile"
     quick = ctx.quick
     rnd = random.Random(ctx.seed)
     ctx.rule = ("configurations (processes, threads, job list, cache, maxjobs, restart pattern, failing jobs) x schedules "
@@ -133,6 +157,7 @@ def run(ctx):
         raise vlib.InfraError("coordinator: %s" % e)
     finally:
         pool.close()
+        shutil.rmtree(snap, ignore_errors=True)
     vlib.log("C10 total %.0fs" % (time.time() - t00))
 
 
